@@ -437,7 +437,16 @@ def job_digests(prop, tier, seed, scale, idxs):
     ctx = {"seed": seed, "tier": tier, "config": base_config(), "findings": fl}
     jobs = scn.jobs(tier, seed, scale)
     out = {}
-    _init_worker(prop, ctx)
-    for i in idxs:
-        out[str(i)] = _work(jobs[i])["digest"]
+    nw = int(os.environ.get("VERIF_DIGEST_JOBS", "8"))
+    if nw <= 1 or len(idxs) <= 1:
+        _init_worker(prop, ctx)
+        for i in idxs:
+            out[str(i)] = _work(jobs[i])["digest"]
+        return out
+    mp = multiprocessing.get_context("fork")
+    with ProcessPoolExecutor(max_workers=min(nw, len(idxs)), mp_context=mp, initializer=_init_worker,
+                             initargs=(prop, ctx)) as ex:
+        futs = {i: ex.submit(_work, jobs[i]) for i in idxs}
+        for i in idxs:
+            out[str(i)] = futs[i].result()["digest"]
     return out
